@@ -137,6 +137,8 @@ CONTRACTS = [update_labels, from_path, brew_tail]
 BOUNDED = {"module": "harness.c07"}
 
 MUTANTS = [
+    {"name": "forced-models-counted-as-one-pass", "target": "mokapot.brew.brew#fallback",
+     "find": "        feat_total = 0\n", "replace": "        feat_total = 1\n"},
     # inverse of fix b0e9f4a
     {"name": "inverse-fix-no-label-conversion", "target": "mokapot.dataset.update_labels",
      "find": "    df = utils.convert_targets_column(df, target_column)\n    return _update_labels(\n        scores=scores,\n        targets=df[target_column],",
